@@ -204,3 +204,91 @@ Example C03_nonvacuous :
   pend_matches (mkV true false) 1 (mkS true 1 PAuth fsm0 fsm0 fsm0 true 0 (Some 1) PtChap false false false ANone ANone ANone false) = true.
 Proof. vm_compute. repeat split; auto; discriminate. Qed.
 Print Assumptions C03_nonvacuous.
+
+(* ====================================================================== *)
+(* IPoE gate (IpoeModel.v / IpoeProofs.v) and the reject teardown (RejectTeardown.v) — wrappers only.
+   STATUS: the per-handler gates below hold for every machine state; the statement over all event sequences
+   (gate monitor accepted, every unapproved attempt holds nothing) is the bounded sweep C03_ipoe_bounded_sweep. *)
+From OV Require Import C03.IpoeModel C03.IpoeProofs C03.RejectTeardown.
+
+(* a DISCOVER / REQUEST / SOLICIT / REQUEST6(RENEW) handled for a session that is not approved yields no OFFER, ACK,
+   ADVERTISE, REPLY, no dataplane call and no Active lifecycle *)
+Theorem C03_ipoe_unapproved_gated : forall slot m, iappr (jms m) = false -> nosvc (jmo m) ->
+  nosvc (jmo (h_discover slot m)) /\ nosvc (jmo (h_request slot m)) /\
+  nosvc (jmo (h_solicit slot m)) /\ nosvc (jmo (h_request6 slot m)).
+Proof.
+  intros slot m Ha Hn. repeat split.
+  - exact (discover_unapproved slot m Ha Hn). - exact (request_unapproved slot m Ha Hn).
+  - exact (solicit_unapproved slot m Ha Hn). - exact (request6_unapproved slot m Ha Hn).
+Qed.
+Print Assumptions C03_ipoe_unapproved_gated.
+
+(* RELEASE / RELEASE6 never yield a service output *)
+Theorem C03_ipoe_release_no_service : forall slot good m, nosvc (jmo m) ->
+  nosvc (jmo (h_release slot good m)) /\ nosvc (jmo (h_release6 slot m)).
+Proof. intros slot good m Hn. split; [exact (release_nosvc slot good m Hn) | exact (release6_nosvc slot m Hn)]. Qed.
+Print Assumptions C03_ipoe_release_no_service.
+
+(* repaired: an AAA answer is ignored unless the session has a request in flight (late, duplicate, unsolicited) *)
+Theorem C03_ipoe_answer_needs_request : forall slot allowed m, iinfl (jms m) = false -> h_aaa true slot allowed m = m.
+Proof. exact aaa_needs_inflight. Qed.
+Print Assumptions C03_ipoe_answer_needs_request.
+
+(* repaired: a reject / error emits nothing, queues nothing, touches neither pool nor provider lease table, and
+   leaves the session unapproved and removed, with whatever (nothing, see the sweep) it held unchanged *)
+Theorem C03_ipoe_reject_step : forall slot m,
+  let m' := h_aaa true slot false m in
+  jmo m' = jmo m /\ jmq m' = jmq m /\ jm4 m' = jm4 m /\ jm6 m' = jm6 m /\ jpv4 m' = jpv4 m /\ jpv6 m' = jpv6 m /\
+  (iinfl (jms m) = true -> iappr (jms m') = false /\ iex (jms m') = false /\
+     ic4 (jms m') = ic4 (jms m) /\ ib4 (jms m') = ib4 (jms m) /\ icreated (jms m') = icreated (jms m)).
+Proof. exact aaa_reject. Qed.
+Print Assumptions C03_ipoe_reject_step.
+
+(* repaired: approval comes only from an accept that finds a request in flight *)
+Theorem C03_ipoe_approval_source : forall slot allowed m,
+  iappr (jms (h_aaa true slot allowed m)) = true -> iappr (jms m) = true \/ (allowed = true /\ iinfl (jms m) = true).
+Proof. exact aaa_approves. Qed.
+Print Assumptions C03_ipoe_approval_source.
+
+(* answers carrying an earlier or unknown session id, and answers for a subscriber with no stored session *)
+Theorem C03_ipoe_foreign_answers_ignored : forall rep st i a,
+  istep rep st (IeAAA i ROld a) = (st, []) /\ istep rep st (IeAAA i RUnk a) = (st, []).
+Proof. exact aaa_foreign_ignored. Qed.
+Print Assumptions C03_ipoe_foreign_answers_ignored.
+Theorem C03_ipoe_no_session_no_effect : forall rep st i sl a,
+  nth_error (isl st) i = Some sl -> iex (scur sl) = false ->
+  istep rep st (IeAAA i RCur a) = (st, []) /\ istep rep st (IeRequest6 i) = (st, []) /\
+  istep rep st (IeRelease6 i) = (st, []) /\ (forall g, istep rep st (IeRelease i g) = (st, [])).
+Proof. exact no_session_no_effect. Qed.
+Print Assumptions C03_ipoe_no_session_no_effect.
+
+(* Bounded: from each of 15 situations every sequence of THREE events over the 14-event alphabet (one subscriber,
+   2 IPv4 / 8 IPv6 addresses): the gate monitor accepts the trace and every attempt that is not approved at the end
+   holds no registry lease, no address, no dataplane session and no queued dataplane add. *)
+Theorem C03_ipoe_bounded_sweep : isweep3 = true.
+Proof. exact isweep3_ok. Qed.
+Print Assumptions C03_ipoe_bounded_sweep.
+
+(* today's code: (1) accept, bind, then a second answer "reject": the unapproved, removed session still holds its
+   lease and dataplane session; (2) a second accept makes the next DISCOVER take the pool's last address.
+   The repaired variant does neither. *)
+Theorem C03_ipoe_refuted :
+  unapproved_clean (fst (irun false (iinit 2 8) iw_reject_after_bind)) = false /\
+  length (pfree (p4 (fst (irun false (iinit 2 8) iw_second_accept)))) = 0 /\
+  unapproved_clean (fst (irun true (iinit 2 8) iw_reject_after_bind)) = true /\
+  length (pfree (p4 (fst (irun true (iinit 2 8) iw_second_accept)))) = 1.
+Proof. exact ipoe_refuted. Qed.
+Print Assumptions C03_ipoe_refuted.
+
+(* PPPoE reject teardown: the repaired step is two steps of Model.step (the answer, then the dead-peer teardown of
+   the session it rejected), so everything proved for all event sequences of Model.run covers it *)
+Theorem C03_reject_teardown_is_run : forall v evs st, run_rt v st evs = fst (run v st (expand v st evs)).
+Proof. exact run_rt_expand. Qed.
+Print Assumptions C03_reject_teardown_is_run.
+(* with the teardown a rejected re-authentication gives the address back and removes the session; without it
+   (today) it does not (C03_reject_after_reauth_keeps_lease above) *)
+Example C03_reject_teardown_releases : forall rfc,
+  let st := run_rt (mkV true rfc) (init 2) w_reauth_reject in
+  free st = 2 /\ option_map live (nth_error (sl st) 0) = Some false.
+Proof. intros []; vm_compute; auto. Qed.
+Print Assumptions C03_reject_teardown_releases.
